@@ -3,6 +3,7 @@ import A2Verif.Model.Nibble
 import A2Verif.Model.Flat
 import A2Verif.Model.Nibble35
 import A2Verif.Model.Track
+import A2Verif.Drv.C08Img
 /-!
 driver family `c08`
 
@@ -26,6 +27,9 @@ flat image op sequences, starting from the freshly created (all zero) image:
 * answer: `;`-separated results `ok:<hex>` / `ok` / `err` / `panic` (the sequence stops at a panic), then
   `fin:<fnv1a-64 of the image data>`
 The bounds-check flags are those extracted from the current source (`A2Verif.Gen.C08Guards`).
+
+loaded IMD / TD0 images with any mix of sector record types (see `Drv/C08Img.lean`):
+* `c08 imdseq <hex file> <ops>`, `c08 td0seq <hex file> <ops>`
 -/
 namespace A2Verif.Drv.C08
 open A2Verif A2Verif.Hex A2Verif.Model.Nibble
@@ -267,6 +271,8 @@ def handle (toks : List String) : String :=
   match toks with
   | "trk" :: rest => (handleTrk rest).getD "bad-request"
   | "seq" :: rest => (handleSeq rest).getD "bad-request"
+  | "imdseq" :: _ => (C08Img.handle toks).getD "bad-request"
+  | "td0seq" :: _ => (C08Img.handle toks).getD "bad-request"
   | _ => (handleCodec toks).getD "bad-request"
 
 end A2Verif.Drv.C08
